@@ -115,6 +115,11 @@ type env struct {
 	armFault  *fkey
 	attempted map[fkey]bool // source files a rollup job may have opened already (reader cached)
 	drainKey  string
+	// round 10: target stores closed by `tclose` (store path); a target store is registered in the store
+	// manager iff avail[interval] and not tclosed[path]
+	tclosed  map[string]bool
+	evict    bool // eviction region: target stores are closed / re-created while the source family objects live on
+	boundary bool // the source days lie on both sides of a target-segment boundary (month end / year end)
 }
 
 func (e *env) srcStorePath(di int) string {
@@ -362,6 +367,26 @@ func (e *env) tgtSegName(tgt int64) string {
 	return timeutil.Interval(tgt).Calculator().GetSegment(e.segT)
 }
 
+// tgtSegNames: the target segments of interval tgt that the source days of the case roll up into
+// (one, unless the days lie on both sides of a month / year boundary).
+func (e *env) tgtSegNames(tgt int64) []string {
+	var out []string
+	seen := map[string]bool{}
+	for di := range e.days {
+		n := timeutil.Interval(tgt).Calculator().GetSegment(e.days[di].segT)
+		if !seen[n] {
+			seen[n] = true
+			out = append(out, n)
+		}
+	}
+	return out
+}
+
+// tgtSegOf: the target segment family.rollup() selects for source family h.
+func (e *env) tgtSegOf(h int, tgt int64) string {
+	return timeutil.Interval(tgt).Calculator().GetSegment(e.srcFamStart(h))
+}
+
 func (e *env) openStores() error {
 	e.fams = map[int]kv.Family{}
 	e.famByID = map[string]int{}
@@ -388,8 +413,14 @@ func (e *env) openStores() error {
 	}
 	for _, t := range e.tgts {
 		if e.avail[t] {
-			if _, err := kv.GetStoreManager().CreateStore(e.tgtStorePath(t, e.tgtSegName(t)), kv.DefaultStoreOption()); err != nil {
-				return err
+			for _, sn := range e.tgtSegNames(t) {
+				p := e.tgtStorePath(t, sn)
+				if e.tclosed[p] {
+					continue
+				}
+				if _, err := kv.GetStoreManager().CreateStore(p, kv.DefaultStoreOption()); err != nil {
+					return err
+				}
 			}
 		}
 	}
@@ -419,28 +450,30 @@ func (e *env) stateString() string {
 	}
 	var refs [][3]int64
 	for _, t := range e.tgts {
-		st, ok := kv.GetStoreManager().GetStoreByName(e.tgtStorePath(t, e.tgtSegName(t)))
-		if !ok {
-			continue
-		}
-		for _, n := range st.ListFamilyNames() {
-			f := st.GetFamily(n)
-			if f == nil {
+		for _, sn := range e.tgtSegNames(t) {
+			st, ok := kv.GetStoreManager().GetStoreByName(e.tgtStorePath(t, sn))
+			if !ok {
 				continue
 			}
-			snap := f.GetSnapshot()
-			for store, fams := range snap.GetCurrent().GetAllReferenceFiles() {
-				for fid, files := range fams {
-					h, ok := e.famByID[store+"/"+strconv.Itoa(int(fid))]
-					if !ok {
-						h = -1
-					}
-					for _, file := range files {
-						refs = append(refs, [3]int64{t, int64(h), int64(file)})
+			for _, n := range st.ListFamilyNames() {
+				f := st.GetFamily(n)
+				if f == nil {
+					continue
+				}
+				snap := f.GetSnapshot()
+				for store, fams := range snap.GetCurrent().GetAllReferenceFiles() {
+					for fid, files := range fams {
+						h, ok := e.famByID[store+"/"+strconv.Itoa(int(fid))]
+						if !ok {
+							h = -1
+						}
+						for _, file := range files {
+							refs = append(refs, [3]int64{t, int64(h), int64(file)})
+						}
 					}
 				}
+				snap.Close()
 			}
-			snap.Close()
 		}
 	}
 	ps := []string{}
@@ -497,9 +530,11 @@ func (e *env) opCfg() {
 	}
 	if curZone != nil {
 		e.c.Op(fmt.Sprintf("cfgz %d %s %s | %s | %s", e.src, strings.Join(ds, ","), strings.Join(hs, ","), strings.Join(ts, " "), curZone.txt), "ok")
+		e.emitRegistry()
 		return
 	}
 	e.c.Op(fmt.Sprintf("cfg %d %s %s | %s", e.src, strings.Join(ds, ","), strings.Join(hs, ","), strings.Join(ts, " ")), "ok")
+	e.emitRegistry()
 }
 
 // locLine mirrors the locating lines of family.rollup() with the real calculators and the real
@@ -597,7 +632,7 @@ func (e *env) opRollup(h int, cut int, viaStore bool) error {
 		after := e.pendingSet()
 		for _, t := range e.tgts {
 			k := [3]int64{int64(fault.h), fault.file, t}
-			if e.avail[t] && before[k] && after[k] {
+			if e.registered(fault.h, t) && before[k] && after[k] {
 				failed[t] = true
 				e.c.Branch("fault-attempt-failed")
 			}
@@ -632,7 +667,9 @@ func (e *env) opRollup(h int, cut int, viaStore bool) error {
 	}
 	var av []int64
 	for _, t := range e.tgts {
-		if e.avail[t] && !failed[t] {
+		// `failed`: the job of that interval failed in this attempt (fault region). Whether the target store
+		// is REGISTERED is not told to the model: it resolves the target itself (registry of topen/tclose)
+		if !failed[t] {
 			av = append(av, t)
 		}
 	}
@@ -1105,7 +1142,7 @@ func newEnv(c *core.Ctx, rng *rand.Rand) (*env, error) {
 	}
 	return &env{c: c, rng: rng, base: base, avail: map[int64]bool{}, files: map[fkey]fileData{},
 		owned: map[[3]uint32]bool{}, schema: map[uint32]map[int]int{}, cutAt: -1, failKey: "slot-aggregate-mismatch",
-		attempted: map[fkey]bool{}, drainKey: "not-merged-once",
+		attempted: map[fkey]bool{}, drainKey: "not-merged-once", tclosed: map[string]bool{},
 		famOpt: kv.FamilyOption{CompactThreshold: 0, Merger: string(metricsdata.MetricDataMerger)}}, nil
 }
 
@@ -1159,12 +1196,14 @@ func optionAccepts(ivs ...int64) error {
 func (e *env) finish() error {
 	// make every target available, roll every family up completely, then compare everything
 	for _, t := range e.tgts {
-		if !e.avail[t] {
-			e.avail[t] = true
-			if _, err := kv.GetStoreManager().CreateStore(e.tgtStorePath(t, e.tgtSegName(t)), kv.DefaultStoreOption()); err != nil {
-				return err
+		for _, sn := range e.tgtSegNames(t) {
+			if !e.avail[t] || e.tclosed[e.tgtStorePath(t, sn)] {
+				if err := e.opTOpen(t, sn); err != nil {
+					return err
+				}
 			}
 		}
+		e.avail[t] = true
 	}
 	for _, h := range e.hours {
 		if err := e.opRollup(h, -1, false); err != nil {
@@ -1231,11 +1270,40 @@ func (e *env) storeCase() error {
 	if curZone != nil {
 		d, region = pickZoneDay(rng, e.zoneYear)
 	}
+	if e.boundary && curZone == nil {
+		// source days on both sides of a target-segment boundary: the last day(s) of a month (a third: of
+		// the year) and the first day(s) of the next one - their families roll up into DIFFERENT target
+		// stores (month type: <yyyymm>, year type: <yyyy> at a year end)
+		y, m := int64(2015+rng.Intn(21)), int64(1+rng.Intn(12))
+		if rng.Intn(3) == 0 {
+			m = 12
+		}
+		d = daysFromCivil(y, m+1, 1) - 1
+		if m == 12 {
+			d = daysFromCivil(y+1, 1, 1) - 1
+			region = "boundary-year-end"
+		} else {
+			region = "boundary-month-end"
+		}
+	}
 	c.Branch(region)
 	if err := e.setDay(d); err != nil {
 		return err
 	}
-	if e.multi {
+	if e.multi && e.boundary && curZone == nil {
+		if err := e.addDay(d + 1); err != nil {
+			return err
+		}
+		if rng.Intn(2) == 0 {
+			if err := e.addDay(d + int64([]int{-1, 2}[rng.Intn(2)])); err != nil {
+				return err
+			}
+		}
+		c.Branch(fmt.Sprintf("multi-day-%d", len(e.days)))
+		for _, t := range e.tgts {
+			c.Branch(fmt.Sprintf("target-stores-of-interval-%d", len(e.tgtSegNames(t))))
+		}
+	} else if e.multi {
 		// 1-2 more source days of the same month: their families roll up into the SAME target store
 		// (month type: one target family per day; year type: the same target family)
 		tcm := timeutil.Interval(5 * min_).Calculator()
@@ -1411,6 +1479,11 @@ func (e *env) storeCase() error {
 			} else if rng.Intn(2) == 0 { // rollup again immediately
 				c.Branch("rollup-twice")
 				if err := e.opRollup(h, -1, false); err != nil {
+					return err
+				}
+			}
+			if e.evict && cut < 0 && e.armFault == nil && rng.Intn(4) != 0 {
+				if err := e.evictStep(h); err != nil {
 					return err
 				}
 			}
@@ -1663,6 +1736,10 @@ func (a area) Run(c *core.Ctx) error {
 				err = e.witnessCase()
 			case i%8 == 7:
 				e.multi = true
+				// half of the UTC multi-day cases: days on both sides of a month / year end; half of those
+				// with target-store eviction
+				e.boundary = i%16 == 7
+				e.evict = i%32 == 23
 				err = e.storeCase()
 			case i == 4:
 				err = e.compactionWitness()
@@ -1681,6 +1758,9 @@ func (a area) Run(c *core.Ctx) error {
 				e.failKey = "unguarded-pair-differs-from-recorded-behaviour"
 				err = e.storeCase()
 			default:
+				// eviction region: target stores are closed and re-created between two rollups of one living
+				// source family object (UTC: i%16==0, zones: i%16==10)
+				e.evict = i > 4 && (i%16 == 0 || i%16 == 10)
 				err = e.storeCase()
 			}
 		}()
